@@ -1,6 +1,7 @@
 package main
 
 import (
+	"os"
 	"fmt"
 	"go/ast"
 	"go/constant"
@@ -668,7 +669,12 @@ func (x *Exec) execInstr(fr *Frame, st *State, ins ssa.Instruction) {
 // born before the clock value at which the variable's contents were established (baseNow).
 func (x *Exec) now(st *State) *Term { return x.heapGet(st, "g:now", x.tb.BV(64)) }
 
-func (x *Exec) birth(r *Term) *Term { return x.tb.UF("birth", x.tb.BV(64), r) }
+func (x *Exec) birth(r *Term) *Term {
+	// an array rather than an uninterpreted function: cvc5's integer back end rejects bound
+	// variables under uninterpreted functions
+	bv64 := x.tb.BV(64)
+	return x.tb.Select(x.tb.Var("birth", x.tb.Array(bv64, bv64)), r)
+}
 
 func (x *Exec) allocAt(now, r *Term) *Term { return x.tb.ULt(x.birth(r), now) }
 
@@ -678,6 +684,7 @@ func (x *Exec) freshRef(st *State, hint string) *Term {
 	now := x.now(st)
 	x.assume(st, x.tb.And(x.nonNil(r), x.tb.Eq(x.birth(r), now), x.tb.Eq(x.tb.UF("origin", bv64, r), x.tb.BVInt(0, 64))))
 	x.heapSet(st, "g:now", x.tb.Add(now, x.tb.BVInt(1, 64)))
+	x.assume(st, x.tb.ULt(now, x.tb.Add(now, x.tb.BVInt(1, 64))))
 	x.freshRefs[r.ID] = true
 	return r
 }
@@ -686,14 +693,23 @@ func (x *Exec) freshRef(st *State, hint string) *Term {
 func (x *Exec) bumpNow(st *State) {
 	d := x.tb.Fresh("dn", x.tb.BV(64))
 	x.assume(st, x.tb.ULe(d, x.tb.BVInt(1<<32, 64)))
-	x.heapSet(st, "g:now", x.tb.Add(x.now(st), d))
+	old := x.now(st)
+	nw := x.tb.Add(old, d)
+	// the clock never wraps (2^32 steps of at most 2^32 from a start below 2^32); stated outright
+	// so that no solver has to rediscover it through the adder
+	x.assume(st, x.tb.ULe(old, nw))
+	x.heapSet(st, "g:now", nw)
 }
 
 // assumeAllocated: a reference obtained from the heap or the environment is nil or allocated;
 // where its term shows which heap variable it was read from, it was allocated already when
 // that variable's contents were established (so it is none of the objects created since).
 func (x *Exec) assumeAllocated(st *State, r *Term) {
-	x.assume(st, x.allocFact(st, r, 0))
+	f := x.allocFact(st, r, 0)
+	if os.Getenv("GOVC_DEBUG_ALLOC") != "" {
+		fmt.Fprintf(os.Stderr, "allocfact %s => %s\n", x.tb.Show(r), x.tb.Show(f))
+	}
+	x.assume(st, f)
 }
 
 func (x *Exec) allocFact(st *State, r *Term, depth int) *Term {
